@@ -25,7 +25,12 @@ def builtin_impls(ctx, prog, rule='S-LEN'):
     return roots
 
 
-def run(ctx):
+def run_config(ctx):
+    """the configuration-dependent part (built-in impls of the crate itself); the derive corpus is expanded once, for the host"""
+    return run(ctx, derive=False)
+
+
+def run(ctx, derive=True):
     prog = load.program('core-full')
     ctx.rules_run.append('T-LEN: cbor_len table of the 12 scalar types = length of the encoder table, cell by cell (complete)')
     ok = 0
@@ -37,11 +42,14 @@ def run(ctx):
     roots = builtin_impls(ctx, prog)
     derived = 0
     try:
+        if not derive:
+            raise ImportError()
         from . import derive_rules
         derived = derive_rules.c07(ctx)
         if ctx.tier == 'thorough':
             derived += derive_rules.on_random(ctx, derive_rules.c07)
     except ImportError:
-        ctx.notes.append('derive corpus not built')
+        if derive:
+            ctx.notes.append('derive corpus not built')
     return ('Scalar length tables equal encoder tables on every cell; item-level length summaries of %d built-in impls equal their emission summaries; '
             '%d derived schema x presence-vector cases compared.' % (roots, derived))
